@@ -327,6 +327,8 @@ I5_SCRIPTS = {
     "annotated-parameter-called-with-a-float": "def scale(v: int, n: int):\n    return v * n\ng = 2.5\nmon.write(scale(g, 2))\nmon.write(scale(3, 2))\ndef mean(a: int, b: int):\n    return (a + b) / 2\nmon.write(mean(g, 1))\n",
     "subscript-of-a-nested-list-or-call-result": "grid = [[0.5, 1.25], [2.5, 4.25]]\nv = grid[1][1]\nmon.write(v)\ndef pair(x):\n    return [x, x * 2.5]\nw = pair(1.5)[1]\nmon.write(w)\ndef corner(g):\n    return g[1][0]\nmon.write(corner(grid))\nrow = grid[0]\nmon.write(row[1])\n",
     "float-of-a-string-keeps-its-fraction": "raw = '2.75'\nv = float(raw)\nmon.write(v)\nn = int('42')\nmon.write(n)\ndef conv(s):\n    return float(s) * 2\nmon.write(conv('1.25'))\nw = float('3')\nmon.write(w)\nparts = ['0.5', '7']\nmon.write(float(parts[0]) + int(parts[1]))\n",
+    "helper-unpacks-floats-into-names-that-are-module-ints": "lo = 7\nhi = 9\ndef span(v):\n    lo, hi = v / 2, v * 1.5\n    return hi - lo\nmon.write(span(3))\nmon.write(lo)\nmon.write(hi)\ndef pair(v):\n    [lo, hi] = [v + 0.25, v + 0.75]\n    return lo + hi\nmon.write(pair(1))\nmon.write(lo + hi)\n",
+    "helper-binds-a-module-name-only-in-nested-blocks": "level = 3\ndef pick(v):\n    if v > 1:\n        level = v / 4\n    else:\n        level = 0.5\n    return level * 2\nmon.write(pick(3))\nmon.write(level)\ndef acc(n):\n    for i in range(n):\n        level = i + 0.5\n    return level\nmon.write(acc(2))\nmon.write(level)\n",
     "dc-motor-queries-stored-in-variables": "from Reduino.Actuators import DCMotor\nm = DCMotor(2, 3, 5)\nm.set_speed(0.5)\nv = m.get_speed()\nw = m.get_applied_speed()\nhalf = v / 2\nmon.write(v)\nmon.write(w)\nmon.write(half)\n",
     "servo-queries-stored-in-variables": "from Reduino.Actuators import Servo\ns = Servo(9)\ns.write(45.5)\na = s.read()\nu = s.read_us()\nd = a + 0.25\nmon.write(a)\nmon.write(u)\nmon.write(d)\n",
     "queries-returned-from-helpers": "from Reduino.Actuators import DCMotor\nm = DCMotor(2, 3, 5)\ndef speed():\n    return m.get_speed()\ndef twice():\n    s = m.get_applied_speed()\n    return s * 2\nm.set_speed(0.25)\nmon.write(speed())\nmon.write(twice())\n",
